@@ -128,7 +128,7 @@ def check(repo: Repo, rep, tier):
     inactive(repo, rep)
     driver_filter(repo, rep)
     flags_not_approval(repo, rep)
-    stale_bindings(repo, rep, None, "e.g. a copied state/config object keeps the flags of import time, so approval decisions are taken on stale data")
+    stale_bindings(repo, rep, {"config", "_current"}, "e.g. a copied state/config object keeps the flags of import time, so approval decisions are taken on stale data")
 
 
 WRITER_TABLE = {
